@@ -64,6 +64,11 @@ CHECKS = {
     technique="TLA+ HPACK encoder (Hpack.tla, tables generated from RFC 7541, checked against RFC appendix C) and HTTP/2 framing (Http2.tla); TLC enumerates representation choices x framings x control-frame prefixes with the expected report; replayed into HttpProcessors::parse_request/parse_response",
     text="The header list a block denotes is fixed by the encoder plan, so TLC can enumerate every representation per field (indexed, literal with/without/never indexing, name by index or literal, Huffman or plain, in-block dynamic references, table size updates incl. 0) and every framing (PADDED 0/1/7/255, PRIORITY, every single CONTINUATION cut and double cuts of the block, END_STREAM or not, control frames before and after, responses) and assign method, path, status, header list, cookies, referer, user agent, language and the p0f-style observation; the real parser must report exactly that for each rendered byte string.",
     note="Trusted: TLC, Hpack/Http2/Http1 specs, generated RFC tables, harness projection. Values printable ASCII; lists up to 12 fields."),
+ "C17": dict(
+    level="model_checking", design="§5 C17",
+    technique="TLA+ definition of the Akamai fingerprint over abstract frame sequences and of the incremental extractor on offsets (Akamai.tla); TLC-generated connection starts replayed into extract_akamai_fingerprint_from_bytes; per-chunk returns of Http2FingerprintExtractor::add_bytes for every cut position trace-validated by TLC (TV_C17)",
+    text="TLC enumerates client connection starts (SETTINGS with boundary and unknown ids and 32-bit values, first connection-level WINDOW_UPDATE with and without the reserved bit, PRIORITY frames incl. exclusive and 31-bit dependencies, HEADERS in every pseudo-header order with PADDED / PRIORITY / CONTINUATION framing, unusual frame orders, missing or repeated SETTINGS), with and without the preface, renders them to bytes and assigns the fingerprint of every frame prefix; the one-shot extractor must return it with the right truncated SHA-256, and for every byte cut position and seeded k-partitions the incremental extractor's per-chunk returns must be exactly what the offset machine assigns: one report, on the chunk completing the first SETTINGS frame, equal to the one-shot fingerprint of the bytes so far.",
+    note="Trusted: TLC, Akamai/Http2/Hpack specs, SHA-256 by hashlib. A chunk boundary between a HEADERS frame and its CONTINUATION leaves the pseudo-header part unjudged (position still judged)."),
 }
 
 NOT_YET = {}
